@@ -75,12 +75,108 @@ def ctx_for(v):
     instead of per version therefore shows up in every check that goes
     through this function (C04-C07, C11).  Callers use the returned context
     before asking for another version."""
+    if _CTX.get('private') is not None:
+        # inside reassigned(): a context object private to the running case
+        _CTX['private'].protocol_version = v
+        return _CTX['private']
     if 'shared' not in _CTX:
         from minecraft.networking.connection import ConnectionContext
         _CTX['shared'] = ConnectionContext(protocol_version=v)
     c = _CTX['shared']
     c.protocol_version = v
+    if not _RECENT or _RECENT[-1] != v:
+        if len(_FIRST) < 2 and v not in _FIRST:
+            _FIRST.append(v)
+        _RECENT.append(v)
+        del _RECENT[:-4]
     return c
+
+
+# The shared context makes a case depend on which versions the context
+# carried before (that is the point: per-context memoisation must show).  To
+# keep failing cases replayable in a fresh process the first two and the
+# last three earlier versions are stored with the case; a replay first runs
+# the same case under those versions on the shared context (vlib.runner).
+_FIRST, _RECENT = [], []
+
+
+def _annotate(case):
+    if '_ctx_history' in case or not (
+            'version' in case or 'release' in case):
+        return case
+    cur = case.get('version', case.get('release'))
+    hist = []
+    for v in _FIRST + _RECENT[:-1]:
+        if v != cur and (not hist or hist[-1] != v):
+            hist.append(v)
+    return dict(case, _ctx_history=hist) if hist else case
+
+
+from vlib import core as _core      # noqa: E402
+if _annotate not in _core.CASE_ANNOTATORS:
+    _core.CASE_ANNOTATORS.append(_annotate)
+
+ERAS = [47, 107, 210, 316, 340, 393, 404, 477, 498, 573, 578, 735, 751, 757]
+_calls = [0]
+
+
+class _Renamed(object):
+    """ctx proxy: failures found in reassigned mode get their own signature
+    (and therefore their own, self-contained replay file)."""
+
+    def __init__(self, ctx):
+        self.__dict__['_c'] = ctx
+
+    def __getattr__(self, n):
+        return getattr(self._c, n)
+
+    def __setattr__(self, n, v):
+        setattr(self._c, n, v)
+
+    def fail(self, component, clause, case, *a, **k):
+        return self._c.fail(component, clause + '@reassigned-context', case,
+                            *a, **k)
+
+
+def reassigned(fn, key='version', every=4):
+    """Wrap a component so that a case can carry 'prev_version': the case is
+    then run on a context object of its own that first carried prev_version
+    (same operation, results discarded) and is then reassigned - the
+    self-contained form of what the shared context does across cases.  Every
+    `every`-th ordinary case is additionally run in that form with a
+    prev_version from a rotating list of era versions."""
+    def private(ctx, case):
+        from minecraft.networking.connection import ConnectionContext
+        pv = case['prev_version']
+        saved = _CTX.get('private')
+        _CTX['private'] = ConnectionContext(protocol_version=pv)
+        try:
+            scratch = _core.Ctx(ctx.prop, ctx.tier, ctx.seed, 'scratch')
+            c0 = dict(case)
+            c0[key] = pv
+            try:
+                fn(scratch, c0)
+            except Exception:
+                pass
+            return fn(_Renamed(ctx), case)
+        finally:
+            _CTX['private'] = saved
+
+    def wrapped(ctx, case):
+        if isinstance(case, dict) and case.get('prev_version') is not None:
+            return private(ctx, case)
+        r = fn(ctx, case)
+        if isinstance(case, dict) and key in case:
+            _calls[0] += 1
+            if _calls[0] % every == 0:
+                pv = ERAS[(_calls[0] // every) % len(ERAS)]
+                if pv != case[key]:
+                    ctx.label('reassigned_context_cases')
+                    private(ctx, dict(case, prev_version=pv))
+        return r
+    wrapped.__name__ = getattr(fn, '__name__', 'component')
+    wrapped.__doc__ = fn.__doc__
+    return wrapped
 
 
 def fresh_ctx(v):
